@@ -163,6 +163,14 @@ class Machine:
                 st.viol('O8', 'OpCode::%s slot operand is %s, not the index of a resolved symbol' % (op, show_av(av)))
             elif st.sym_scope.get(av[1]) != 'Global':
                 st.viol('O8-scope', 'OpCode::%s (global slot access) emitted for a symbol whose scope is %s' % (op, st.sym_scope.get(av[1], 'not tested')))
+        if s.get('writes_slot') and provs and provs[0] and provs[0][0] == 'symindex' and st.trace:
+            # a declaration introduces a NEW variable in the scope that is current: the store that gives it its first value goes
+            # to the slot define() handed out on this path, not to a variable of that name found by a lookup (an outer one)
+            head = str(st.trace[0])
+            if head.startswith(('Stmt::Let', 'Expr::Function')) and st.facts.get(('symhow', provs[0][1])) == 'resolve':
+                nm = st.facts.get(('symname', provs[0][1]))
+                if isinstance(nm, tuple) and nm and nm[0] == 'ast' and ('/Let.' in nm[1] or '/Function.name' in nm[1]):
+                    st.viol('R09.9', 'the declared name is stored with OpCode::%s into a variable found by a lookup, not into the slot a definition in the current scope hands out' % op)
         if op == 'CallBuiltin':
             if not provs or provs[0][0] != 'builtin_byte':
                 st.viol('O8', 'CallBuiltin operand#1 is %s, not `builtin as u8`' % show_av(provs[0] if provs else None))
